@@ -298,7 +298,16 @@ func (c *VC) evalArgs(st *State, fn *types.Func, call *ast.CallExpr) ([]*Term, b
 				case embIsPtr && !recvIsPtr:
 					rv = c.deref(st, rv, et.Underlying().(*types.Pointer).Elem(), se.Pos(), exprText(c.prog.fset, se.X))
 				default:
+					// pointer receiver on an embedded value: its address is not modelled; an unknown
+					// (non-nil) pointer stands for it
 					c.unsupportedf(se.Pos(), "method call through embedded field")
+					if xIsPtr {
+						// the embedded value lives at a fixed place inside *x: the same x gives the same address
+						rv = c.uf("embaddr_"+sanitize(fmt.Sprint(path)), sortInt, c.eval(st, se.X))
+					} else {
+						rv = c.fresh("embrecv", sortInt)
+					}
+					c.addFact(tTrue, mk(">", sortBool, rv, intLit64(0)))
 				}
 			} else if !recvIsPtr && xIsPtr {
 				rv = c.deref(st, rv, xt.Underlying().(*types.Pointer).Elem(), se.Pos(), exprText(c.prog.fset, se.X))
